@@ -19,6 +19,19 @@ import (
 func (s *scen) reopen(mask int) {
 	s.st.Close()
 	s.removeIndexes(mask)
+	if mask&1 != 0 || mask == 8 {
+		// a tree rebuilt from hints/data holds no entry for deleted keys: the version a LATER
+		// write to such a key receives starts over (C02 speaks about what keys read back at
+		// reopen, C01 about one process lifetime) - outside the oracle from here on
+		for _, k := range s.keys {
+			if m := s.model[k]; m != nil && m.ver < 0 {
+				if s.noVersion == nil {
+					s.noVersion = map[string]bool{}
+				}
+				s.noVersion[k] = true
+			}
+		}
+	}
 	s.open()
 }
 
